@@ -106,6 +106,8 @@ func (o Op) String() string {
 		return fmt.Sprintf("%s(%s)", o.Kind, o.Rel)
 	case "ReadFrom":
 		return fmt.Sprintf("ReadFrom(%s,chunk=%d)", o.Rel, o.Chunk)
+	case "ReadFromErr":
+		return fmt.Sprintf("ReadFrom(%s bytes then source error)", o.Rel)
 	}
 	return o.Kind
 }
@@ -140,6 +142,12 @@ func Alphabet(S int) []Op {
 		n string
 	}{{0, "0"}, {1, "1"}, {S + 1, "S+1"}} {
 		ops = append(ops, Op{Kind: "WriteThrough", K: x.k, Rel: x.n})
+	}
+	// a source that delivers bytes and then fails with a non-EOF error: the bytes ReadFrom
+	// reported as accepted still belong to the message
+	ops = append(ops, Op{Kind: "ReadFromErr", K: 3, Rel: "3"})
+	if S > 4 {
+		ops = append(ops, Op{Kind: "ReadFromErr", K: S + 2, Rel: "S+2"})
 	}
 	ops = append(ops, Op{Kind: "FlushFragment"}, Op{Kind: "Flush"})
 	for _, x := range []struct {
@@ -188,6 +196,8 @@ type Session struct {
 	PlainOnly  bool   // only Write/ReadFrom/Grow since the last final flush
 	WriteOnly  bool   // only Write/Grow since the last final flush
 	Failed     bool   // an error was reported by the writer (C16)
+	// DirtyUnknown: a call happened that may or may not count as "something written"
+	DirtyUnknown bool
 
 	parsedBytes int // dest bytes already parsed
 	wirePayload int // payload bytes seen on the wire
@@ -234,6 +244,27 @@ func (s *Session) Apply(o Op) *explore.Fail {
 		}
 		s.accept(int(n))
 		s.Dirty = true
+		s.WriteOnly = false
+	case "ReadFromErr":
+		src := env.NewSrc(Gen(s.pos, o.K))
+		src.EndErr = env.ErrSource
+		var srcErr error
+		n, srcErr = w.ReadFrom(src)
+		if srcErr == nil {
+			return explore.Failf("ReadFrom-swallows-source-error", "")
+		}
+		if srcErr != env.ErrSource {
+			err = srcErr // a writer-side failure
+		}
+		if int(n) > o.K {
+			return explore.Failf("ReadFrom-count-too-large", "")
+		}
+		s.accept(int(n))
+		if n > 0 {
+			s.Dirty = true
+		} else if !s.Dirty {
+			s.DirtyUnknown = true // nothing accepted: whether a later Flush emits an empty frame is open
+		}
 		s.WriteOnly = false
 	case "WriteThrough":
 		p := Gen(s.pos, o.K)
@@ -359,6 +390,14 @@ func (s *Session) checkWire(o Op, callErr error) (*explore.Fail, string) {
 	if o.Kind == "Flush" {
 		wasDirty := s.Dirty
 		nframes := len(frames)
+		if s.DirtyUnknown && !wasDirty {
+			// either nothing, or one empty final frame
+			if nframes > 1 || (nframes == 1 && (!frames[0].H.Fin || frames[0].H.Len != 0)) {
+				return explore.Failf("Flush-after-empty-failed-ReadFrom", "%d frames", nframes), desc.String()
+			}
+			wasDirty = nframes == 1
+		}
+		s.DirtyUnknown = false
 		if !wasDirty && nframes != 0 {
 			return explore.Failf("Flush-with-nothing-written-emits", "%d frame(s)", nframes), desc.String()
 		}
